@@ -1,0 +1,31 @@
+//go:build verif
+
+package storagesc
+
+import "github.com/0chain/common/core/util"
+
+// VerifEntityPrototypes returns, for every type this contract stores in state, a function creating the empty value the
+// way the contract code creates its decode target (verification harness, C08).
+func VerifEntityPrototypes() []func() util.MPTSerializable {
+	return []func() util.MPTSerializable{
+		func() util.MPTSerializable { return &StorageNode{} },
+		func() util.MPTSerializable { return &StorageAllocation{} },
+		func() util.MPTSerializable { return &WriteMarker{} },
+		func() util.MPTSerializable { return &ValidationNode{} },
+		func() util.MPTSerializable { return newStakePool() },
+		func() util.MPTSerializable { return newChallengePool() },
+		func() util.MPTSerializable { return new(readPool) },
+		func() util.MPTSerializable { return new(fundedPools) },
+		func() util.MPTSerializable { return &freeStorageAssigner{} },
+		func() util.MPTSerializable { return newConfig() },
+		func() util.MPTSerializable { return &AllocationChallenges{} },
+		func() util.MPTSerializable { return &StorageChallenge{} },
+		func() util.MPTSerializable { return &PartitionsWeights{} },
+		func() util.MPTSerializable { return &ReadConnection{} },
+		func() util.MPTSerializable { return &BlobberAllocation{} },
+		func() util.MPTSerializable { return &BlobberRewardNode{} },
+		func() util.MPTSerializable { return &ChallengeReadyBlobber{} },
+		func() util.MPTSerializable { return &BlobberAllocationNode{} },
+		func() util.MPTSerializable { return &ValidationPartitionNode{} },
+	}
+}
